@@ -83,6 +83,8 @@ type secExec struct {
 	errs    []string // every error string returned by the implementation
 	// the transaction the last successful SignRawTx returned (oracle tokens `w:`, eng_sec_oracle.go)
 	lastSigned *wire.MsgTx
+	// the transaction the wallet built in the last `autosign` op (oracle token `t=`)
+	lastAuto *wire.MsgTx
 }
 
 func (x *secExec) env() *WEnv {
@@ -244,7 +246,27 @@ func (x *secExec) Exec(a []string) string {
 		}
 		return res
 	case a[0] == "autosign" && len(a) >= 6:
-		return x.autosign(a[1:])
+		// oracle tokens (if any) follow the must|may word
+		end := len(a)
+		for i := 5; i < len(a); i++ {
+			if a[i] == "must" || a[i] == "may" {
+				end = i + 1
+				break
+			}
+		}
+		res := x.autosign(a[1:end])
+		if end < len(a) && res != "bad-op" {
+			// the wallet orders the outputs of a transaction it builds by Go map iteration (AutoCreateRawTransaction takes a
+			// map of amounts): digests, signatures and witnesses of a multi-output draft differ from run to run, so only
+			// the run-independent facts (inputs chosen, addresses, keys, redeem-script hashes) are compared here
+			if got := strings.Join(secStableToks(x.autoOracle(a[1], flagTok(a[3]))), " "); got != strings.Join(secStableToks(a[end:]), " ") {
+				if verifDebug {
+					fmt.Fprintln(os.Stderr, "  [oracle drift] recomputed:", got)
+				}
+				res += "!oracle-drift"
+			}
+		}
+		return res
 	}
 	return ledOp(e, a)
 }
@@ -1366,6 +1388,7 @@ func (x *secExec) sign(w, passHex, flagT, t string) string {
 //   stake FROM|- A:AMT:FROZEN  LOCK FEE
 //   bind  FROM|- HOLDER:N:AMT  FEE
 func (x *secExec) autosign(a []string) string {
+	x.lastAuto, x.lastSigned = nil, nil
 	e := x.e
 	w := a[0]
 	p, ok := passTok(a[1])
@@ -1471,6 +1494,7 @@ func (x *secExec) autosign(a []string) string {
 		return "FAIL:decode"
 	}
 	defer e.wm.ClearUsedUTXOMark(&tx)
+	x.lastAuto = cloneTx(&tx)
 	cls, bad := x.signCore(p, flag, &tx)
 	if bad != "" {
 		return "FAIL:" + cls + "!" + bad
